@@ -332,7 +332,12 @@ theorem step_opShow (m : M) (h : Ledger cfg m.st) (arg : ShowArg) (i : Option Na
       · cases hs2
         rw [← hv1]
         simp [chipView]
-      · rw [chipView_muckHoleCards hs2, hv1]
+      · split at hs2
+        · cases hs2
+        · rename_i s3 hs3
+          cases hs2
+          exact (show chipView { s3 with runoutSelectors := _ } = chipView s3 from rfl).trans
+            ((chipView_muckHoleCards hs3).trans hv1)
 
 /-! ### run-out selection -/
 
